@@ -228,11 +228,13 @@ int parity_create(struct snapraid_parity_handle* handle, const struct snapraid_p
 		if (split->size == PARITY_SIZE_INVALID) {
 			split->size = split->st.st_size;
 
-			/* ensure that the resulting size if block aligned */
+			/* ensure that the resulting size is block aligned */
+			/* a final partial block cannot contain valid parity, like after */
+			/* a truncation, and it's ignored to allow to fix or resync it */
 			if ((split->size & block_mask) != 0) {
 				/* LCOV_EXCL_START */
-				log_fatal("Error in preallocated size of parity file '%s' with size %" PRIu64 " and block %u .\n", split->path, split->size, block_size);
-				goto bail;
+				log_fatal("WARNING! Ignoring the final partial block of parity file '%s' with size %" PRIu64 " and block %u.\n", split->path, split->size, block_size);
+				split->size &= ~(data_off_t)block_mask;
 				/* LCOV_EXCL_STOP */
 			}
 		}
@@ -715,11 +717,13 @@ int parity_open(struct snapraid_parity_handle* handle, const struct snapraid_par
 		if (split->size == PARITY_SIZE_INVALID) {
 			split->size = split->st.st_size;
 
-			/* ensure that the resulting size if block aligned */
+			/* ensure that the resulting size is block aligned */
+			/* a final partial block cannot contain valid parity, like after */
+			/* a truncation, and it's ignored to allow to fix or resync it */
 			if ((split->size & block_mask) != 0) {
 				/* LCOV_EXCL_START */
-				log_fatal("Error in preallocated size of parity file '%s' with size %" PRIu64 " and block %u .\n", split->path, split->size, block_size);
-				goto bail;
+				log_fatal("WARNING! Ignoring the final partial block of parity file '%s' with size %" PRIu64 " and block %u.\n", split->path, split->size, block_size);
+				split->size &= ~(data_off_t)block_mask;
 				/* LCOV_EXCL_STOP */
 			}
 		}
@@ -907,8 +911,9 @@ int parity_read(struct snapraid_parity_handle* handle, block_off_t pos, unsigned
 		/* LCOV_EXCL_STOP */
 	}
 
-	/* if read is completely out of the valid range */
-	if (offset >= split->valid_size) {
+	/* if read is completely or partially out of the valid range */
+	/* a partial block happens only if the file was truncated, and then it cannot be valid */
+	if (offset + block_size > split->valid_size) {
 		/* LCOV_EXCL_START */
 		out("Missing data reading file '%s' at offset %" PRIu64 " for size %u.\n", split->path, offset, block_size);
 		return -1;
